@@ -14,4 +14,5 @@ CONSTANTS
   PathSet = {"archive"}
 INVARIANT LookupIsUnionInv
 INVARIANT TableIsUnion
+INVARIANT LookupBudgetsInv
 CHECK_DEADLOCK FALSE
